@@ -193,7 +193,7 @@ static bool takeStates(const Ctx &c, const std::vector<std::string> &t, size_t &
     {
         std::vector<std::string> st(t.begin() + i, t.begin() + i + c.w);
         for (const auto &x : st)
-            if (!vp::parseInt(x))
+            if (!vp::parseNat(x) && !vp::parseInt(x))
                 return false;
         // validate by parsing once
         out.push_back(st);
